@@ -37,7 +37,9 @@ PROPS = {
         "kani": [("tables", ["oracle_bijective", "is_ambiguous_classification"]), ("wrappers", None), ("rowfragk", ["count_pred_all_bytes"])],
         "bounded_quick": [{"group": "rowfragk", "name": "bounded_keep_noconst_len4", "bound": "rows of length <= 4 over 8 representative symbols"},
                           {"group": "rowfragk", "name": "bounded_keep_noambig_len4", "bound": "rows of length <= 4 over 8 representative symbols"},
-                          {"group": "rowfragk", "name": "bounded_keep_noambig_or_const_len4", "bound": "rows of length <= 4 over 8 representative symbols"}],
+                          {"group": "rowfragk", "name": "bounded_keep_noambig_or_const_len4", "bound": "rows of length <= 4 over 8 representative symbols"},
+                          {"group": "ndarr", "name": "bounded_update_counts_1x2", "bound": "1 row x 2 samples, symbolic bytes, flag and stored count",
+                           "args": ["-Z", "unstable-options", "--cbmc-args", "--unwindset", "memcmp.0:18"], "timeout": 1200}],
         "bounded": [{"group": "ndarr", "name": "bounded_update_counts_2x2", "bound": "2 rows x 2 samples, symbolic bytes, flag and stored counts",
                      "args": ["-Z", "unstable-options", "--cbmc-args", "--unwindset", "memcmp.0:18"], "timeout": 2400}],
     },
@@ -64,6 +66,7 @@ PROPS = {
         "verus": [("idxcheck", [None])],
         "functions": ["IdxCheck::new", "IdxCheck::iter", "Iterator::next"],
         "kani": [("u8base", None)],
+        "bounded_quick": [{"group": "idxk", "name": "bounded_idxcheck_4x3", "bound": "1..=4 contigs of length 1..=3"}],
         "bounded": [],
     },
     "C14": {
@@ -107,6 +110,7 @@ KANI_GROUPS = {
     "bitops": {"attach": "src/ska_dict/bit_encoding.rs", "file": "bitops_harness.rs", "complete": True},
     "nthash": {"attach": "src/ska_dict/nthash.rs", "file": "nthash_harness.rs", "complete": True},
     "palin": {"fragment_unit": "palinfrag", "file": "palin_harness.rs", "complete": True},
+    "idxk": {"attach": "src/ska_ref/idx_check.rs", "file": "idx_harness.rs", "complete": False},
     "u8base": {"attach": "src/ska_ref.rs", "file": "u8base_harness.rs", "complete": True},
     "ndarr": {"attach": "src/merge_ska_array.rs", "file": "ndarr_harness.rs", "complete": False},
 }
